@@ -14,7 +14,7 @@ from util import J
 LEVEL = "proof"
 C_ERR = 10.0
 RULE = ("(a) kernel cases on random integer Phi tensors / cores (ranks 1..3, rectangular modes 1..3); (b) monitor: compatible operand pairs of order 1..6 (quick 1..4), "
-        "mode sizes 1..6, ranks 1..4, exact-rank and decaying-spectrum cores, eps in [1e-12,1e-1], random seeds, user guesses of rank 1..5, complex for the DMRG routines. "
+        "mode sizes 1..6, ranks 1..4, every fourth run an interior-singleton family (order 4..5, a size-1 row mode between rank-3x3 bonds), exact-rank and decaying-spectrum cores, eps in [1e-12,1e-1], random seeds, user guesses of rank 1..5, complex for the DMRG routines. "
         "Non-trivial: every kernel case with a rank>1, every monitor run.")
 ASSUMPTIONS = ["the error inequality is MONITORED on the real code (kind K), constant C = %g" % C_ERR,
                "opt_einsum contracts what its subscripts say; QR/SVD contracts"]
@@ -80,8 +80,24 @@ def monitor_cases(rng, tier, stats):
         RA = [1] + [rng.randint(1, 4) for _ in range(d - 1)] + [1]
         Rx = [1] + [rng.randint(1, 4) for _ in range(d - 1)] + [1]
         guess = rng.choice([None, None, "user"])
+        fam = ""
+        if c % 4 == 3:
+            # structured family: a singleton mode in the interior, between bonds whose exact product rank (3x3) is far above the rank of the
+            # internal random start, with neighbouring modes large enough to carry it -- the sweep has to grow the rank across the singleton
+            d = 4 if tier == "quick" else rng.choice([4, 5])
+            pos = rng.randint(1, d - 2)
+            N = [rng.randint(4, 6) for _ in range(d)]
+            M = [rng.randint(4, 6) for _ in range(d)]
+            N[pos] = rng.choice([1, 1, 2])
+            M[pos] = 1
+            RA = [1] + [3] * (d - 1) + [1]
+            Rx = [1] + [3] * (d - 1) + [1]
+            eps = 10.0 ** rng.uniform(-10, -3)
+            decay = False
+            guess = None if rng.random() < 0.7 else "user"
+            fam = "/interior-singleton"
         seed = rng.randrange(1 << 30)
-        label = "%s/d%d/%s%s%s" % (routine, d, "c128" if cplx else "f64", "/decay" if decay else "", "/guess" if guess else "")
+        label = "%s/d%d/%s%s%s%s" % (routine, d, "c128" if cplx else "f64", "/decay" if decay else "", "/guess" if guess else "", fam)
         box = {}
 
         def impl(routine=routine, d=d, N=N, M=M, dt=dt, eps=eps, decay=decay, RA=RA, Rx=Rx, guess=guess, seed=seed, box=box, label=label):
